@@ -293,7 +293,8 @@ func flipChar(s string, i int) string {
 }
 
 func c16DrawAuthority(t *rapid.T, f *sim.Fixture) (string, string) {
-	kinds := []string{"user", "module", "empty", "flipped", "other-hrp", "hex", "gov-upper", "garbage", "val-operator", "gov-padded"}
+	kinds := []string{"user", "module", "empty", "flipped", "other-hrp", "hex", "gov-upper", "garbage", "val-operator", "gov-padded",
+		"gov-suffix-32", "gov-prefix-32", "gov-truncated", "gov-leading-space", "gov-suffix-21"}
 	k := rapid.SampledFrom(kinds).Draw(t, "authkind")
 	switch k {
 	case "user":
@@ -316,6 +317,24 @@ func c16DrawAuthority(t *rapid.T, f *sim.Fixture) (string, string) {
 		return rapid.StringN(0, 40, -1).Draw(t, "g"), k
 	case "val-operator":
 		return sdk.ValAddress(sim.GovAddr).String(), k
+	case "gov-suffix-32", "gov-suffix-21":
+		// another (longer, valid) account whose trailing 20 bytes spell the governance address
+		n := 12
+		if k == "gov-suffix-21" {
+			n = 1
+		}
+		pad := rapid.SliceOfN(rapid.Byte(), n, n).Draw(t, "pad")
+		if pad[0] == 0 {
+			pad[0] = 1
+		}
+		return sdk.AccAddress(append(pad, sim.GovAddr...)).String(), k
+	case "gov-prefix-32":
+		pad := rapid.SliceOfN(rapid.Byte(), 12, 12).Draw(t, "pad")
+		return sdk.AccAddress(append(append([]byte{}, sim.GovAddr...), pad...)).String(), k
+	case "gov-truncated":
+		return sdk.AccAddress(sim.GovAddr[:len(sim.GovAddr)-1]).String(), k
+	case "gov-leading-space":
+		return " " + govBech32, k
 	default:
 		return govBech32 + " ", k
 	}
